@@ -11,7 +11,20 @@ sys.path.insert(0, ROOT)
 from checks_config import CHECKS
 
 
+REPEAT = 1
+
+
 def run(binp, tests, path):
+    """flaky (schedule-dependent) failures: the candidate fails if any of REPEAT runs fails"""
+    res = None
+    for _ in range(REPEAT):
+        res = run1(binp, tests, path)
+        if res and res.get("fail"):
+            return res
+    return res
+
+
+def run1(binp, tests, path):
     env = dict(os.environ, VERIF_REPLAY=path, VERIF_ROOT=ROOT)
     try:
         p = subprocess.run([binp, "-test.run", f"^({tests})$", "-test.v", "-test.timeout", "200s"], env=env, cwd=tempfile.gettempdir(),
@@ -56,7 +69,10 @@ def main():
     ap.add_argument("replay")
     ap.add_argument("--out")
     ap.add_argument("--match", default="", help="substring the failure message must keep")
+    ap.add_argument("--repeat", type=int, default=1, help="runs per candidate (flaky failures)")
     a = ap.parse_args()
+    global REPEAT
+    REPEAT = a.repeat
     cfg = CHECKS[a.id]
     pkg = cfg.get("pkg", "props")
     binp = os.path.join(ROOT, ".build", pkg + ".test")
